@@ -33,7 +33,7 @@ func fidelityMain(args []string) int {
 	if len(args) > 2 {
 		seed, _ = strconv.ParseUint(args[2], 10, 64)
 	}
-	steps, hits, ttySteps := 0, 0, 0
+	steps, hits, ttySteps, fifoSteps := 0, 0, 0, 0
 	for i := 0; i < n; i++ {
 		r := core.NewRNG(core.Mix(seed, 0xf1de, uint64(i)))
 		sc := genHistory(r, "quick")
@@ -54,6 +54,14 @@ func fidelityMain(args []string) int {
 			if rs := sc.Steps[k].Run; rs != nil && rs.Stdin == "" {
 				ttySteps++
 			}
+			if rs := sc.Steps[k].Run; rs != nil {
+				for _, a := range rs.Argv {
+					if strings.HasPrefix(a, cliFifo+"/") {
+						fifoSteps++
+						break
+					}
+				}
+			}
 		}
 		res := &core.Result{}
 		x := execCli("C14", sc, res, wrapC14)
@@ -71,7 +79,7 @@ func fidelityMain(args []string) int {
 			return 2
 		}
 	}
-	fmt.Printf("selftest fidelity: pseudo-terminal available=%v, %d invocations ran with stdin on a terminal\n", havePty(), ttySteps)
+	fmt.Printf("selftest fidelity: pseudo-terminal available=%v, %d invocations ran with stdin on a terminal, %d read an input through a real named pipe\n", havePty(), ttySteps, fifoSteps)
 	fmt.Printf("selftest fidelity: %d histories, %d invocations (%d served from the cache) agree between the simulator and the real binary (stdout, status, user files, cache directory image)\n", n, steps, hits)
 	return 0
 }
@@ -143,7 +151,10 @@ func fidelityReal(sc *cliScenario, x *cliExec, root, bin string) (bool, string, 
 	}
 	sort.Strings(names)
 	for _, n := range names {
-		realos.WriteFile(root+n, sc.Files[n].bytes(), 0644)
+		realos.MkdirAll(filepath.Dir(root+n), 0755)
+		if err := realos.WriteFile(root+n, sc.Files[n].bytes(), 0644); err != nil {
+			return false, fmt.Sprintf("cannot set up %s: %v", n, err), 0
+		}
 	}
 	hits := 0
 	si := 0
